@@ -263,7 +263,7 @@ func runC09(c *fw.Ctx) {
 		}
 		idx++
 	}
-	forEachCase(c09Strata(), c.N(25000, 1500000), func(i int, id string, st *stratum, k int) {
+	forEachCase(c09Strata(), c.N(60000, 1500000), func(i int, id string, st *stratum, k int) {
 		if !c.Want(1000+i, id) {
 			return
 		}
